@@ -378,7 +378,10 @@ impl Shared {
                     }
                 }
                 None => {
-                    if !st.diverged {
+                    if st.detached.iter().any(|d| *d) {
+                        // somebody is still running outside the model; it decides when it reaches a point
+                        st.current = None;
+                    } else if !st.diverged {
                         let desc = describe_blocked(&st);
                         st.fail("deadlock", format!("no simulated thread can proceed: {}", desc));
                     }
@@ -445,11 +448,15 @@ impl Shared {
                     self.cvs[next].notify_one();
                 }
                 None => {
-                    if !st.diverged {
-                        let desc = describe_blocked(&st);
-                        st.fail("deadlock", format!("no simulated thread can proceed: {}", desc));
+                    if st.detached.iter().any(|d| *d) {
+                        st.current = None;
+                    } else {
+                        if !st.diverged {
+                            let desc = describe_blocked(&st);
+                            st.fail("deadlock", format!("no simulated thread can proceed: {}", desc));
+                        }
+                        self.wake_all();
                     }
-                    self.wake_all();
                 }
             }
         } else {
@@ -481,8 +488,25 @@ fn describe_blocked(st: &State) -> String {
     parts.join("; ")
 }
 
-/// After this long without a scheduling point the baton holder is presumed blocked outside the model.
+/// Fallback: after this long without a scheduling point the baton holder is presumed blocked
+/// outside the model even if its OS state cannot be read.
 const DETACH_SECS: u64 = 3;
+
+/// OS thread id of the calling thread (Linux), 0 if unknown.
+fn os_tid() -> u64 {
+    std::fs::read_link("/proc/thread-self").ok().and_then(|p| p.file_name().and_then(|f| f.to_str().and_then(|s| s.parse().ok()))).unwrap_or(0)
+}
+
+/// Is the OS thread sleeping / blocked (state S or D)? None if unknown.
+fn os_blocked(tid: u64) -> Option<bool> {
+    if tid == 0 {
+        return None;
+    }
+    let stat = std::fs::read_to_string(format!("/proc/self/task/{}/stat", tid)).ok()?;
+    let after = stat.rsplit(')').next()?;
+    let state = after.trim_start().chars().next()?;
+    Some(state == 'S' || state == 'D')
+}
 
 pub struct SimConfig {
     pub policy: Policy,
@@ -533,13 +557,16 @@ pub fn simulate<R: Send + 'static>(
     });
     let results: Arc<Mutex<Vec<Option<Caught<R>>>>> = Arc::new(Mutex::new((0..n).map(|_| None).collect()));
     let draws: Arc<Mutex<Vec<u64>>> = Arc::new(Mutex::new(vec![0; n]));
+    let tids: Arc<Vec<AtomicU64>> = Arc::new((0..n).map(|_| AtomicU64::new(0)).collect());
     let mut handles = Vec::new();
     for (tid, body) in bodies.into_iter().enumerate() {
         let sh = shared.clone();
         let res = results.clone();
         let dr = draws.clone();
         let ent_seed = cfg.ent_seeds[tid];
+        let tids2 = tids.clone();
         handles.push(std::thread::spawn(move || {
+            tids2[tid].store(os_tid(), Ordering::SeqCst);
             let hooks = Arc::new(SimHooks { shared: sh.clone(), tid, ent_seed, ent_counter: AtomicU64::new(0) });
             crate::gen::set_hooks(Some(hooks.clone()));
             let out = util::catch(|| {
@@ -572,16 +599,33 @@ pub fn simulate<R: Send + 'static>(
             }
         }
         st.last_progress = Instant::now();
+        let mut blocked_seen: Option<(usize, usize)> = None;
         loop {
             if st.finished == n {
                 break;
             }
-            let (g, _) = shared.main_cv.wait_timeout(st, Duration::from_millis(250)).unwrap();
+            let (g, _) = shared.main_cv.wait_timeout(st, Duration::from_millis(10)).unwrap();
             st = g;
             if st.finished == n {
                 break;
             }
-            if st.last_progress.elapsed() > Duration::from_secs(DETACH_SECS) && !st.abort {
+            // the baton holder sleeping in the kernel (twice in a row, no scheduling point in between)
+            // means it is blocked on something the model does not know about
+            let mut presumed_blocked = st.last_progress.elapsed() > Duration::from_secs(DETACH_SECS);
+            if !presumed_blocked && st.last_progress.elapsed() > Duration::from_millis(20) {
+                if let Some(cur) = st.current {
+                    if os_blocked(tids[cur].load(Ordering::SeqCst)) == Some(true) {
+                        if blocked_seen == Some((cur, st.steps)) {
+                            presumed_blocked = true;
+                        } else {
+                            blocked_seen = Some((cur, st.steps));
+                        }
+                    } else {
+                        blocked_seen = None;
+                    }
+                }
+            }
+            if presumed_blocked && !st.abort {
                 // the baton holder has not reached a scheduling point for a while: it may be blocked on
                 // something the model does not know (an uninstrumented lock held by a parked thread).
                 // Hand the baton to another enabled thread instead of raising an alarm.
